@@ -119,6 +119,7 @@ class Check:
                 kind, msg = 'bound', str(b)
             except Unsupported as e:
                 kind, msg = 'unsupported', str(e)
+                if os.environ.get('VERIF_TRACE'): traceback.print_exc()
             self.functions |= it.encoded; self.models |= it.models_used
             self.stubs |= set(it.stubs)
             pr = PathResult(kind, val, ctx.conds(), it.world, list(ctx.log), msg, dict(it.observed), list(ctx.prefix),
@@ -376,6 +377,7 @@ def enter(it, contract, entry, env, info, msg, nice=()):
     it.rsteps.append(st)
     it.scenario = sc
     name = '%s::contract::%s' % (contract, entry)
+    if entry == 'reply' and it.prog.get(name) is None: name = '%s::reply::reply' % contract
     try:
         if entry == 'query': r = run_entry(it, name, mk_deps(mut=False), env, msg)
         elif entry == 'reply': r = run_entry(it, name, mk_deps(), env, msg)
